@@ -345,9 +345,12 @@ def _reg(case, bad):
             self.mean_ = float(numpy.mean(y))
             return self
 
+        shift = 0.0
+
         def predict(self, X):
-            # stays inside the domain of every inverse: a value taken by the transformed targets
-            return numpy.full((numpy.asarray(X).shape[0],), self.mean_) + 0.0 * numpy.asarray(X)[:, 0]
+            # stays inside the domain of every inverse: a value taken by the transformed targets (plus Rec.shift, used with the
+            # permutation only: predictions below the smallest / above the largest code)
+            return numpy.full((numpy.asarray(X).shape[0],), self.mean_ + Rec.shift) + 0.0 * numpy.asarray(X)[:, 0]
 
     name = case["name"]
     cnt = 0
@@ -357,13 +360,14 @@ def _reg(case, bad):
         doms = [0.0, 1.0, 2.0]
     else:
         doms = DOMAINS[name][:3]
-    for n in range(2, L + 1):
+    for n, shift in itertools.product(range(2, L + 1), (0.0, -10.0, 10.0, -0.75) if name == "permute" else (0.0,)):
+        Rec.shift = shift
         X = numpy.arange(n, dtype=numpy.float64).reshape(-1, 1) + 1.0
         for vec in itertools.product(doms, repeat=n):
             y = numpy.array(vec, dtype=numpy.float64)
             if name == "permute" and len(set(vec)) < 2:
                 continue
-            desc = "transformer=%s y=%r" % (name, vec)
+            desc = "transformer=%s y=%r%s" % (name, vec, "" if not shift else " inner predictions shifted by %s" % shift)
             cnt += 1
             Rec.seen = []
             X0, y0 = X.copy(), y.copy()
@@ -405,6 +409,7 @@ def _reg(case, bad):
                 if any(abs(a[0] - a[1]) > 1e-9 and p != e for a, p, e in zip(amb, pred.tolist(), exp)):
                     bad("predict != inverse permutation of the closest code", cond, "inner=%r predict=%r expected=%r %s" % (
                         inner.tolist(), pred.tolist(), exp, desc))
+    Rec.shift = 0.0
     if name == "permute":
         # two regressors given the transformer by name, fitted one after the other on different targets
         Xr = numpy.arange(4, dtype=numpy.float64).reshape(-1, 1) + 1.0
